@@ -214,7 +214,7 @@ example : CalendarOK [1612137600, 1614556800, 1617235200] 1610668800 1617235200 
 
 /-- on a reference grid with `I = 0..T-1` each coarse step carries the index, the point and the cumulated
     time of its first fine step -/
-theorem coarse_first_minor (g : Grid) (a b : Int) (c : CoarseCell) (h : coarseCell g a b = .ok c)
+theorem coarse_first_minor (g : Grid) (a b : Int) (c : CoarseCell) (h : coarseCell g a b = .ok (some c))
     (hidx : g.idx = List.range g.pts.length) (hDt : g.Dt.length = g.pts.length) :
     (g.restrict a b).idx.head? = some c.I ∧ (g.restrict a b).pts.head? = some c.pt ∧ (g.restrict a b).Dt.head? = some c.Dt := by
   have := coarseCell_first g a b c h hidx hDt
@@ -236,23 +236,29 @@ theorem coarse_on_restricted_witness :
 /-! ## coarse grid -/
 
 /-- When the coarse grid can be built (`cuts` = the coarse `date_range`, non-decreasing; reference points
-    non-decreasing): there is one coarse step per consecutive pair of cuts; step `j` has as minor list
-    exactly the reference indices of the fine steps in `[cuts_j, cuts_{j+1})`, which is NON-EMPTY, and as
-    length the sum of their `dt`; the minor lists, concatenated in order, are exactly the indices of the
-    fine steps in `[first cut, last cut)` (so they are consecutive and cover that range; disjoint and
-    increasing when the reference indices are increasing); `Σ dt` over the coarse grid equals `Σ dt` over
-    the fine steps of `[first cut, last cut)`.  NOTE the range is `[first cut, last cut)`, not the window:
-    see `coarse_remainder_witness` (F-19b). -/
+    non-decreasing): there is one coarse step per consecutive pair of cuts THAT HOLDS A FINE STEP of the
+    reference grid (`cutPairs cuts` filtered with `hasFine g`), in the order of the cuts; pairs of cuts
+    without any fine step - the asset's own window reaches beyond the optimisation horizon - are skipped
+    (before the repair of this part of F-19b the construction failed on them, and the statement then was
+    "one coarse step per pair of cuts": that form is `coarse_partition_no_empty` below).  The step made
+    from the pair `[a, b)` has as minor list exactly the reference indices of the fine steps in `[a, b)`,
+    which is NON-EMPTY, and as length the sum of their `dt`; the minor lists, concatenated in order, are
+    exactly the indices of the fine steps in `[first cut, last cut)` - skipping loses nothing - (so they
+    are consecutive and cover that range; disjoint and increasing when the reference indices are
+    increasing); `Σ dt` over the coarse grid equals `Σ dt` over the fine steps of `[first cut, last cut)`
+    (new hypothesis `g.dt.length ≤ g.idx.length`, which every constructed grid satisfies with equality:
+    a skipped pair is recognised by its indices, so its step lengths must not outnumber them).
+    NOTE the range is `[first cut, last cut)`, not the window: see `coarse_remainder_witness` (F-19b). -/
 theorem coarse_partition (g : Grid) (cuts : List Int) (cg : CoarseGrid) (c0 cn : Int)
     (h : g.coarsen cuts = .ok cg) (hp : g.pts.Pairwise (· ≤ ·)) (hc : cuts.Pairwise (· ≤ ·))
     (h0 : cuts.head? = some c0) (hn : cuts.getLast? = some cn) :
-    cg.grid.T = cuts.length - 1 ∧ cg.minor.length = cuts.length - 1 ∧
-    (∀ j (hj : j + 1 < cuts.length),
-        cg.minor[j]? = some ((g.restrict cuts[j] cuts[j+1]).idx) ∧ (g.restrict cuts[j] cuts[j+1]).idx ≠ [] ∧
-        cg.grid.dt[j]? = some ((g.restrict cuts[j] cuts[j+1]).dt.sum)) ∧
+    cg.grid.T = ((cutPairs cuts).filter (hasFine g)).length ∧
+    cg.minor = ((cutPairs cuts).filter (hasFine g)).map (fun ab => (g.restrict ab.1 ab.2).idx) ∧
+    cg.grid.dt = ((cutPairs cuts).filter (hasFine g)).map (fun ab => (g.restrict ab.1 ab.2).dt.sum) ∧
+    (∀ ab ∈ cutPairs cuts, ab ∉ (cutPairs cuts).filter (hasFine g) → (g.restrict ab.1 ab.2).idx = []) ∧
     (∀ m ∈ cg.minor, m ≠ []) ∧
     cg.minor.flatten = (g.restrict c0 cn).idx ∧
-    cg.grid.dt.sum = (g.restrict c0 cn).dt.sum ∧
+    (g.dt.length ≤ g.idx.length → cg.grid.dt.sum = (g.restrict c0 cn).dt.sum) ∧
     (g.idx.Pairwise (· < ·) → cg.minor.flatten.Pairwise (· < ·)) := by
   unfold Grid.coarsen at h
   cases hcells : coarseCells g cuts with
@@ -260,52 +266,115 @@ theorem coarse_partition (g : Grid) (cuts : List Int) (cg : CoarseGrid) (c0 cn :
   | ok cells =>
     rw [hcells] at h
     cases h
-    have hok := coarseCells_ok g cuts cells hcells
+    have hok := coarseCells_spec g cuts cells hcells
     have hcov := coarseCells_cover g hp cuts cells hcells hc c0 cn h0 hn
-    have hcell : ∀ c ∈ cells, c.minor ≠ [] := by
-      intro c hcmem
-      obtain ⟨j, hj, hcj⟩ := List.getElem_of_mem hcmem
-      have hj' : j + 1 < cuts.length := by have := hok.1; omega
-      obtain ⟨c', h1, h2⟩ := hok.2 j hj'
-      rw [List.getElem?_eq_getElem hj, hcj] at h1
-      cases h1
-      exact (coarseCell_ok g _ _ c h2).2.1
-    refine ⟨by simp [Grid.T, hok.1], by simp [hok.1], ?_, ?_, hcov.1, hcov.2, ?_⟩
-    · intro j hj
-      obtain ⟨c, h1, h2⟩ := hok.2 j hj
-      have hc2 := coarseCell_ok g _ _ c h2
-      refine ⟨?_, ?_, ?_⟩
-      · simp only [List.getElem?_map, h1, Option.map_some]
-        exact congrArg some hc2.1
-      · have := hc2.2.1
-        rw [hc2.1] at this
-        exact this
-      · simp only [List.getElem?_map, h1, Option.map_some]
-        exact congrArg some hc2.2.2.1
+    refine ⟨?_, hok.1, hok.2.1, ?_, ?_, hcov.1, hcov.2, ?_⟩
+    · show (cells.map (·.pt)).length = _
+      have := congrArg List.length hok.1
+      simpa using this
+    · intro ab hab hnot
+      apply (hasFine_false_iff g ab).mp
+      cases hf : hasFine g ab with
+      | false => rfl
+      | true => exact absurd (List.mem_filter.mpr ⟨hab, hf⟩) hnot
     · intro m hm
       rw [List.mem_map] at hm
       obtain ⟨c, hcm, rfl⟩ := hm
-      exact hcell c hcm
+      exact (hok.2.2 c hcm).1
     · intro hi
       show (List.map (fun x => x.minor) cells).flatten.Pairwise (· < ·)
       rw [hcov.1]
       exact hi.sublist (sel_sublist _ _)
 
+/-- the statement as it read before empty intervals were skipped, under the hypothesis it then got from
+    the success of the construction and now has to ask for: NO pair of cuts is without fine step.  Then
+    there is one coarse step per consecutive pair of cuts, and step `j` has the fine steps of
+    `[cuts_j, cuts_{j+1})` as minor list and the sum of their `dt` as length. -/
+theorem coarse_partition_no_empty (g : Grid) (cuts : List Int) (cg : CoarseGrid)
+    (h : g.coarsen cuts = .ok cg) (hp : g.pts.Pairwise (· ≤ ·)) (hc : cuts.Pairwise (· ≤ ·))
+    (hne : ∀ j (hj : j + 1 < cuts.length), (g.restrict cuts[j] cuts[j+1]).idx ≠ []) :
+    cg.grid.T = cuts.length - 1 ∧ cg.minor.length = cuts.length - 1 ∧
+    ∀ j (hj : j + 1 < cuts.length),
+        cg.minor[j]? = some ((g.restrict cuts[j] cuts[j+1]).idx) ∧
+        cg.grid.dt[j]? = some ((g.restrict cuts[j] cuts[j+1]).dt.sum) := by
+  cases hcuts : cuts with
+  | nil =>
+    subst hcuts
+    have : cg = { grid := { pts := [], idx := [], dt := [], Dt := [], df := [] }, minor := [] } := by
+      simp [Grid.coarsen, coarseCells] at h; exact h.symm
+    subst this
+    exact ⟨rfl, rfl, fun j hj => by simp at hj⟩
+  | cons c0 rest =>
+    rw [← hcuts]
+    have hlast : ∃ cn, cuts.getLast? = some cn := by
+      cases hg : cuts.getLast? with
+      | some cn => exact ⟨cn, rfl⟩
+      | none => rw [List.getLast?_eq_none_iff] at hg; rw [hg] at hcuts; cases hcuts
+    obtain ⟨cn, hn⟩ := hlast
+    have r := coarse_partition g cuts cg c0 cn h hp hc (by rw [hcuts]; rfl) hn
+    have hall : (cutPairs cuts).filter (hasFine g) = cutPairs cuts := by
+      rw [List.filter_eq_self]
+      intro ab hab
+      obtain ⟨j, hj, hjab⟩ := List.getElem_of_mem hab
+      have hj' : j + 1 < cuts.length := by rw [cutPairs_length] at hj; omega
+      have h1 := cutPairs_getElem? cuts j hj'
+      rw [List.getElem?_eq_getElem hj, hjab] at h1
+      cases h1
+      exact (hasFine_true_iff g _).mpr (hne j hj')
+    rw [hall] at r
+    refine ⟨by rw [r.1, cutPairs_length], by rw [r.2.1, List.length_map, cutPairs_length], ?_⟩
+    intro j hj
+    rw [r.2.1, r.2.2.1]
+    simp [List.getElem?_map, cutPairs_getElem? cuts j hj]
+
 /-- if the first cut is the window start and the last cut is the window end (the window is a whole number
-    of coarse steps and the frequency is not anchored elsewhere), nothing of the window is lost -/
+    of coarse steps and the frequency is not anchored elsewhere), nothing of the window is lost: neither a
+    fine step that lies in it (wherever the window lies relative to the reference grid: coarse intervals
+    outside the grid are skipped, the others keep what they hold) nor - for a reference with as many step
+    lengths as indices - any of its duration -/
 theorem coarse_partition_whole (g : Grid) (cuts : List Int) (cg : CoarseGrid) (s e : Int)
     (h : g.coarsen cuts = .ok cg) (hp : g.pts.Pairwise (· ≤ ·)) (hc : cuts.Pairwise (· ≤ ·))
-    (h0 : cuts.head? = some s) (hn : cuts.getLast? = some e) :
+    (h0 : cuts.head? = some s) (hn : cuts.getLast? = some e) (hl : g.dt.length ≤ g.idx.length) :
     cg.minor.flatten = (g.restrict s e).idx ∧ cg.grid.dt.sum = (g.restrict s e).dt.sum :=
   let r := coarse_partition g cuts cg s e h hp hc h0 hn
-  ⟨r.2.2.2.2.1, r.2.2.2.2.2.1⟩
+  ⟨r.2.2.2.2.2.1, r.2.2.2.2.2.2.1 hl⟩
 
-/-- a coarse step that contains no fine step makes the construction fail (the code raises) -/
-theorem coarse_empty_raises (g : Grid) (a b : Int) (rest : List Int)
-    (h : (g.restrict a b).idx = []) : g.coarsen (a :: b :: rest) = .error .emptyCoarse := by
-  have h' : sel (g.mask a b) g.idx = [] := h
-  unfold Grid.coarsen coarseCells coarseCell
-  rw [h']
+/-- the same for a window `[s, e)` that ends after the last cut `cn`, as long as no point of the reference
+    lies in `[cn, e)`: this is the window that reaches beyond the optimisation horizon (the everyday case of
+    an asset with a long life in a rolling optimisation).  The window need not be a whole number of coarse
+    steps then; whatever coarse interval holds the last fine steps of the horizon keeps them (it becomes a
+    shorter coarse step), and the fine steps of the window clipped to the horizon are partitioned without
+    loss. -/
+theorem coarse_partition_clipped (g : Grid) (cuts : List Int) (cg : CoarseGrid) (s e cn : Int)
+    (h : g.coarsen cuts = .ok cg) (hp : g.pts.Pairwise (· ≤ ·)) (hc : cuts.Pairwise (· ≤ ·))
+    (h0 : cuts.head? = some s) (hn : cuts.getLast? = some cn) (hl : g.dt.length ≤ g.idx.length)
+    (hcov : ∀ p ∈ g.pts, s ≤ p → p < e → p < cn) (hcn : cn ≤ e) :
+    cg.minor.flatten = (g.restrict s e).idx ∧ cg.grid.dt.sum = (g.restrict s e).dt.sum := by
+  have r := coarse_partition_whole g cuts cg s cn h hp hc h0 hn hl
+  have hm : g.mask s cn = g.mask s e := by
+    simp only [Grid.mask]
+    apply List.map_congr_left
+    intro p hpm
+    have := hcov p hpm
+    rw [Bool.eq_iff_iff]
+    simp only [Bool.and_eq_true, decide_eq_true_eq]
+    constructor
+    · intro ⟨h1, h2⟩; exact ⟨h1, by omega⟩
+    · intro ⟨h1, h2⟩; exact ⟨h1, this h1 h2⟩
+  have hr : g.restrict s cn = g.restrict s e := by simp only [Grid.restrict, hm]
+  rw [← hr]; exact r
+
+/-- a pair of cuts that contains no fine step is skipped: the coarse grid is the one of the remaining cuts
+    (before the repair the construction failed here with `ValueError: zero-size array to reduction
+    operation minimum`) -/
+theorem coarse_empty_skipped (g : Grid) (a b : Int) (rest : List Int)
+    (h : (g.restrict a b).idx = []) : g.coarsen (a :: b :: rest) = g.coarsen (b :: rest) := by
+  have h' : coarseCell g a b = .ok none := (coarseCell_none_iff g a b).mpr h
+  have hcc : coarseCells g (a :: b :: rest) = coarseCells g (b :: rest) := by
+    rw [coarseCells, h']
+    cases coarseCells g (b :: rest) <;> rfl
+  unfold Grid.coarsen
+  rw [hcc]
 
 /-- F-19b on the model: a 5-hour hourly grid with 2-hour coarse steps over the whole grid: the cuts are
     0 h, 2 h, 4 h; the coarse grid covers 4 of the 5 fine steps and 4 of 5 hours -/
@@ -317,8 +386,19 @@ theorem coarse_remainder_witness :
   refine ⟨{ grid := { pts := [0, 7200], idx := [0, 2], dt := [2, 2], Dt := [1, 3], df := [] }, minor := [[0, 1], [2, 3]] }, ?_⟩
   decide +kernel
 
-/-- … and a window reaching beyond the grid makes it fail -/
-example : (Grid.ofTicks 0 18000 3600 3600 []).coarsen (tickRange 0 28800 7200) = .error .emptyCoarse := by decide +kernel
+/-- the former witness of the crash is now accepted: the same grid with a window that reaches 3 hours
+    beyond it (cuts 0, 2, 4, 6, 8 h): the interval [6 h, 8 h) is skipped, [4 h, 6 h) keeps the one fine
+    step it holds (a coarse step of 1 hour), all 5 fine steps and 5 hours are covered; and with a window
+    starting 4 hours BEFORE the grid (cuts -4, -2, 0, 2, 4 h) the two leading intervals are skipped (the
+    last hour is still dropped: the window does not end on a cut, F-19b) -/
+theorem coarse_beyond_grid_witness :
+    (Grid.ofTicks 0 18000 3600 3600 []).coarsen (tickRange 0 28800 7200)
+      = .ok { grid := { pts := [0, 7200, 14400], idx := [0, 2, 4], dt := [2, 2, 1], Dt := [1, 3, 5], df := [] },
+              minor := [[0, 1], [2, 3], [4]] } ∧
+    (Grid.ofTicks 0 18000 3600 3600 []).coarsen (tickRange (-14400) 18000 7200)
+      = .ok { grid := { pts := [0, 7200], idx := [0, 2], dt := [2, 2], Dt := [1, 3], df := [] },
+              minor := [[0, 1], [2, 3]] } := by
+  decide +kernel
 
 /-! ## interval data -/
 
